@@ -342,14 +342,16 @@ struct NeuroH
     void apply(a_pid_neuro &c, const xs::Op &o) const
     {
         if (o.code == M_ZERO) { a_pid_neuro_zero(&c); return; }
-        if (o.code == M_RUN) { a_pid_neuro_run(&c, (a_real)A[(size_t)o.a], (a_real)A[(size_t)o.b]); return; }
-        a_pid_neuro_inc(&c, (a_real)A[(size_t)o.a], (a_real)A[(size_t)o.b]);
+        if (o.code == M_RUN) { last_ret = a_pid_neuro_run(&c, (a_real)A[(size_t)o.a], (a_real)A[(size_t)o.b]); return; }
+        last_ret = a_pid_neuro_inc(&c, (a_real)A[(size_t)o.a], (a_real)A[(size_t)o.b]);
     }
+    mutable a_real last_ret = 0; // what the step function handed back: "the output" the caller acts on
     void check(const a_pid_neuro &b, const a_pid_neuro &c, const xs::Op &o, Ck &ck) const
     {
         const double f[9] = {c.pid.sum, c.pid.out, c.pid.var, c.pid.fdb, c.pid.err, c.wp, c.wi, c.wd, c.ec};
         for (double v : f) { if (!std::isfinite(v)) { ck.fail("not-finite", "a state variable became non-finite"); return; } }
         if (o.code != M_ZERO && !(c.pid.out >= P.outmin && c.pid.out <= P.outmax)) { ck.fail("out-of-limits", "output " + num(c.pid.out) + " outside [" + num(P.outmin) + "," + num(P.outmax) + "]"); return; }
+        if (o.code != M_ZERO && last_ret != c.pid.out) { ck.fail("return-value", "the step returned " + num((double)last_ret) + " but the output it stored is " + num(c.pid.out)); return; }
         if (o.code == M_ZERO)
         {
             if (c.pid.sum != 0 || c.pid.out != 0 || c.pid.var != 0 || c.pid.fdb != 0 || c.pid.err != 0 || c.ec != 0) { ck.fail("zero", "zeroing did not clear the controller state"); }
@@ -528,12 +530,13 @@ struct FuzzyH
         a_real s = o.code == M_ZERO ? 0 : (a_real)A[(size_t)o.a], f = o.code == M_ZERO ? 0 : (a_real)A[(size_t)o.b];
         switch (o.code)
         {
-        case M_RUN: a_pid_fuzzy_run(&c, s, f); break;
-        case M_POS: a_pid_fuzzy_pos(&c, s, f); break;
-        case M_INC: a_pid_fuzzy_inc(&c, s, f); break;
+        case M_RUN: last_ret = a_pid_fuzzy_run(&c, s, f); break;
+        case M_POS: last_ret = a_pid_fuzzy_pos(&c, s, f); break;
+        case M_INC: last_ret = a_pid_fuzzy_inc(&c, s, f); break;
         case M_ZERO: a_pid_fuzzy_zero(&c); break;
         }
     }
+    mutable a_real last_ret = 0;
     // smallest / largest consequent of a table
     static void range(const a_real *t, unsigned n, double &lo, double &hi)
     {
@@ -546,6 +549,7 @@ struct FuzzyH
         if (!buf.intact()) { ck.fail("buffer-overrun", "the scratch buffer of the documented size A_PID_FUZZY_BFUZZ(" + std::to_string(B->active) + ") was overrun"); return; }
         const double f[8] = {c.pid.sum, c.pid.out, c.pid.var, c.pid.fdb, c.pid.err, c.pid.kp, c.pid.ki, c.pid.kd};
         for (double v : f) { if (!std::isfinite(v)) { ck.fail("not-finite", "a state variable or scheduled gain became non-finite"); return; } }
+        if (o.code != M_ZERO && last_ret != c.pid.out) { ck.fail("return-value", "the step returned " + num((double)last_ret) + " but the output it stored is " + num(c.pid.out)); return; }
         if (o.code == M_ZERO)
         {
             if (c.pid.sum != 0 || c.pid.out != 0 || c.pid.var != 0 || c.pid.fdb != 0 || c.pid.err != 0) { ck.fail("zero", "zeroing did not clear the controller state"); }
